@@ -9,7 +9,8 @@ M_ID, K_ID = 0, 8            # g0 is the mutable base, K the constant base
 LINKS = ['const', 'fun-return', 'fun-local', 'fun-const-local', 'fun-if', 'fun-while', 'fun-arg', 'fun-chain', 'fun-void-out']
 CONTEXTS = ['arraysize', 'range', 'scalarsize', 'global-init', 'const-init', 'template-init', 'value-arg', 'constref-arg', 'typedef-range', 'struct-array', 'select-range',
             'template-array', 'param-range', 'fun-param-array', 'fun-param-range', 'fun-param-ref-array', 'fun-local-array', 'fun-local-range', 'fun-return-range',
-            'template-fun-param-array', 'block-local-array', 'iteration-range', 'quantifier-range', 'fun-param-2d-array', 'struct-field-range']
+            'template-fun-param-array', 'block-local-array', 'iteration-range', 'quantifier-range', 'fun-param-2d-array', 'struct-field-range',
+            'named-struct-array-init', 'named-struct-array-size', 'named-struct-array-field-range', 'template-named-struct-array-init', 'const-named-struct-array-init', 'typedef-array-of-array-size']
 
 
 class Chain:
@@ -119,6 +120,13 @@ def model_xml(ch, ctx, free_param=False):
     elif ctx == 'iteration-range': g += 'void ctx_f() { int z = 0; for (it : int[0, %s]) z += it; }\n' % e
     elif ctx == 'quantifier-range': g += 'bool ctx_f() { return forall (qi : int[0, %s]) qi >= 0; }\n' % e
     elif ctx == 'struct-field-range': g += 'struct { int[0, %s] fa; int fb; } ctx_s;\n' % e
+    # arrays whose element type is a named (typedef'd) or const-prefixed record or array: the element type has to be looked through to find what the variable is
+    elif ctx == 'named-struct-array-init': g += 'typedef struct { int a; int b; } ctx_S;\nctx_S ctx_s[2] = {{%s, 1}, {1, 2}};\n' % e
+    elif ctx == 'named-struct-array-size': g += 'typedef struct { int a; int b; } ctx_S;\nctx_S ctx_s[%s];\n' % e
+    elif ctx == 'named-struct-array-field-range': g += 'typedef struct { int[0, %s] fa; int fb; } ctx_S;\nctx_S ctx_s[2];\n' % e
+    elif ctx == 'template-named-struct-array-init': tdecl = 'typedef struct { int a; int b; } ctx_S;\nctx_S ctx_s[2] = {{1, 2}, {%s, 1}};\n' % e
+    elif ctx == 'const-named-struct-array-init': g += 'typedef struct { int a; int b; } ctx_S;\nconst ctx_S ctx_s[2] = {{%s, 1}, {1, 2}};\n' % e
+    elif ctx == 'typedef-array-of-array-size': g += 'typedef int ctx_row[%s];\nctx_row ctx_m[2];\n' % e
     return '''<?xml version="1.0" encoding="utf-8"?>
 <nta><declaration>%s</declaration>
 <template><name>T</name><parameter>%s</parameter><declaration>%s</declaration>
